@@ -311,7 +311,53 @@ func (p *c20) Init(tier string, seed int64) {
 	p.nNamed = len(c20Broken) * 7
 }
 
-func (p *c20) N() int { return p.nPos + p.nInj + p.nTrunc + p.nNamed }
+func (p *c20) N() int { return p.nPos + p.nInj + p.nTrunc + p.nNamed + len(c20Marked)*len(c20MarkedPrefixes) }
+
+// c20Marked: sources with one wrong token each - a word in the place of a keyword, one token too many inside an
+// interpolation, a tag's parts in the wrong order. The mark (\x01, removed) stands in front of the first token that
+// cannot be: an error, if there is one, is located there.
+var c20Marked = []string{
+	"{% from 'm' import field \x01az f %}", "{% from 'm' import a as b, field \x01az f %}", "{% from 'm' import a, b as c, d \x01az e, f %}", "{% from 'm' \x01imprt field %}",
+	"{% import 'm' \x01az x %}", "{% include 'x' \x01wit {} %}", "{% include 'x' with {} \x01onyl %}", "{% include 'x' \x01ignore misssing %}",
+	"{% use 'x' \x01wiht a as b %}", "{% use 'x' with a \x01az b %}", "{% use 'x' with a as b, c \x01az d %}", "{% embed 'x' \x01onyl %}{% endembed %}", "{% set x \x01y %}",
+	"{% macro m(a) \x01x %}{% endmacro %}", "{% block b \x01c %}{% endblock %}", "{% block b %}{% endblock \x01c %}", "{% extends 'x' \x01y %}",
+	"{{ \"a#{b \x011}c\" }}", "{{ \"a#{b \x01c}c\" }}", "{{ \"a#{b \x01'x'}c\" }}", "{{ \"#{a}#{b \x017}\" }}", "{{ \"#{a}\" ~ \"x#{b | up \x01true}\" }}", "{% set q = \"#{a}#{b}#{c \x01d}\" %}",
+	"{% if \"#{a \x010}\" %}x{% endif %}", "{{ f(\"#{a}\", \"#{b \x012}\") }}",
+}
+
+var c20MarkedPrefixes = []string{"", "line one\nline two \xc3\xa9 ", "{# c #}\r\n\r\n   ", "{{ ok }}{% if a %}\n"}
+
+func (p *c20) runMarked(res *fw.Result, j int) {
+	m, pre := c20Marked[j/len(c20MarkedPrefixes)], c20MarkedPrefixes[j%len(c20MarkedPrefixes)]
+	off := len(pre) + strings.Index(m, "\x01")
+	src := pre + strings.Replace(m, "\x01", "", 1)
+	if strings.Contains(pre, "{% if") {
+		src += "{% endif %}"
+	}
+	res.Evals = 1
+	res.AddClass("marked")
+	_, err := parse.Parse(src)
+	key := fmt.Sprintf("c20:marked:%d", j)
+	in := map[string]interface{}{"source": src}
+	if err == nil {
+		res.AddClass("marked-accepted-not-claimed")
+		return
+	}
+	wl, wc := lineCol(src, off)
+	l, c, ok := errPosition(err)
+	switch {
+	case !ok:
+		res.Fail("no-position", key, fmt.Sprintf("the error %q carries no position (want line %d, column %d)", err, wl, wc), in)
+	case l != wl || c != wc:
+		res.Fail("wrong-error-position", key, fmt.Sprintf("the first token that cannot be is at line %d, column %d, but the error is located at line %d, column %d: %v", wl, wc, l, c, err), in)
+	default:
+		if bad := errTextProblem(err, l, c); bad != "" {
+			res.Fail("wrong-error-text", key, bad, in)
+		}
+	}
+	res.AddObs("error_positions_checked", 1)
+	res.UniqueNT = 1
+}
 
 func (p *c20) Describe(i int) interface{} {
 	switch {
@@ -325,6 +371,9 @@ func (p *c20) Describe(i int) interface{} {
 	case i < p.nPos+p.nInj+p.nTrunc:
 		k := searchOffs(p.truncOffs, i-p.nPos-p.nInj)
 		return map[string]interface{}{"kind": "truncation", "source": p.truncSrc[k], "offsets": fmt.Sprintf("%d..", (i-p.nPos-p.nInj-p.truncOffs[k])*64)}
+	}
+	if i >= p.nPos+p.nInj+p.nTrunc+p.nNamed {
+		return map[string]interface{}{"kind": "marked wrong token", "case": i - p.nPos - p.nInj - p.nTrunc - p.nNamed}
 	}
 	return map[string]interface{}{"kind": "named-template errors", "case": i - p.nPos - p.nInj - p.nTrunc}
 }
@@ -633,8 +682,10 @@ func (p *c20) Run(i int) (res fw.Result) {
 			res.Evals = 1
 		}
 		res.AddClass("truncation-block")
-	default:
+	case i < p.nPos+p.nInj+p.nTrunc+p.nNamed:
 		p.runNamed(&res, i-p.nPos-p.nInj-p.nTrunc)
+	default:
+		p.runMarked(&res, i-p.nPos-p.nInj-p.nTrunc-p.nNamed)
 	}
 	return
 }
